@@ -376,6 +376,19 @@ func c17Variants(base *c17Spec, bi int) []c17Variant {
 			out = append(out, c17Variant{Name: name("ambiguous-alias@%s", st.name), Spec: c, Fault: len(c.Decls) - 1, Fault2: -1})
 		}
 	}
+	// three and four tokens sharing one literal (one per mode / file), used by the parser
+	for n := 3; n <= 4; n++ {
+		for f := 0; f < 2; f++ {
+			c := base.clone()
+			p := freshPat()
+			c.Decls = append(c.Decls, lx1("", 0, "tok", "AMB1 = "+p))
+			for k := 2; k <= n; k++ {
+				c.Decls = append(c.Decls, lx1(fmt.Sprintf("AmbMode%d", k), f, "tok", fmt.Sprintf("AMB%d = %s", k, p)))
+			}
+			c.Decls = append(c.Decls, pr1(f, "fault", "amb = "+p))
+			out = append(out, c17Variant{Name: name("ambiguous-alias-%d-tokens@file%d", n, f+1), Spec: c, Fault: len(c.Decls) - 1, Fault2: -1})
+		}
+	}
 	// zero @start
 	{
 		c := base.clone()
